@@ -6,6 +6,7 @@ mod c14;
 mod c16;
 mod c25;
 mod c26;
+mod c28;
 mod c34;
 
 fn main() {
@@ -27,6 +28,7 @@ fn main() {
         "c25-record" => c25::record(rest),
         "c26-replay" => c26::replay(rest),
         "c26-selfcheck" => c26::selfcheck(rest),
+        "c28-run" => c28::run(rest),
         "c34-replay" => c34::replay(rest),
         _ => {
             eprintln!("unknown command {cmd}");
